@@ -409,7 +409,13 @@ def m_dask_zero_chunk(case, what):
     'range() arg 3 must not be zero' / 'Missing dependency', or wrong shapes of zero-size arrays)"""
     if case.get('kind') != 'chain':
         return False
-    strided = any(ix[0] == 's' and ix[3] is not None and abs(ix[3]) > 1
+    def progression(ix):
+        # an integer list that katdal's _range_to_slice turns into a strided slice
+        if ix[0] != 'l' or len(ix[1]) < 2:
+            return False
+        d = ix[1][1] - ix[1][0]
+        return abs(d) > 1 and all(b - a == d for a, b in zip(ix[1][:-1], ix[1][1:]))
+    strided = any((ix[0] == 's' and ix[3] is not None and abs(ix[3]) > 1) or progression(ix)
                   for k in case['stages'] + [case['k2']] for ix in k)
     symptom = ('raised ValueError' in what or 'raised IndexError' in what or 'shape' in what)
     return strided and symptom
